@@ -21,6 +21,7 @@ import (
 	"encoding/json"
 	"fmt"
 	"reflect"
+	"regexp"
 	"sync"
 	"testing"
 
@@ -94,12 +95,18 @@ func snapState(s consensus.State) []byte {
 	return out
 }
 
+// verdict is what a call decided: accepted, or refused and for which rule. Which of several offending elements a
+// refusal happens to name is not part of it (a transaction with two under-signed parents is refused with "parent X has
+// missing signatures" for whichever of the two the validator's map yields first - the same verdict either way), so
+// element and transaction IDs are blanked before verdicts are compared.
 func verdict(err error) string {
 	if err == nil {
 		return "<accepted>"
 	}
-	return err.Error()
+	return hexID.ReplaceAllString(err.Error(), "<id>")
 }
+
+var hexID = regexp.MustCompile(`[0-9a-f]{64}`)
 
 func diffsOf(d sim.Diffs) string {
 	sc, sf, fc, v2fc, ci := sim.CanonDiffs(d, true)
@@ -162,10 +169,14 @@ func refusedV2(txn types.V2Transaction) []types.V2Transaction {
 		out = append(out, x)
 	}
 	if n := len(txn.FileContractRevisions); n > 0 {
-		add(func(x *types.V2Transaction) { x.FileContractRevisions = append(x.FileContractRevisions, x.FileContractRevisions[n-1]) })
+		add(func(x *types.V2Transaction) {
+			x.FileContractRevisions = append(x.FileContractRevisions, x.FileContractRevisions[n-1])
+		})
 	}
 	if n := len(txn.FileContractResolutions); n > 0 {
-		add(func(x *types.V2Transaction) { x.FileContractResolutions = append(x.FileContractResolutions, x.FileContractResolutions[n-1]) })
+		add(func(x *types.V2Transaction) {
+			x.FileContractResolutions = append(x.FileContractResolutions, x.FileContractResolutions[n-1])
+		})
 	}
 	if n := len(txn.SiacoinInputs); n > 0 {
 		add(func(x *types.V2Transaction) { x.SiacoinInputs = append(x.SiacoinInputs, x.SiacoinInputs[n-1]) })
@@ -185,7 +196,9 @@ func refusedV1(txn types.Transaction) []types.Transaction {
 		out = append(out, x)
 	}
 	if n := len(txn.FileContractRevisions); n > 0 {
-		add(func(x *types.Transaction) { x.FileContractRevisions = append(x.FileContractRevisions, x.FileContractRevisions[n-1]) })
+		add(func(x *types.Transaction) {
+			x.FileContractRevisions = append(x.FileContractRevisions, x.FileContractRevisions[n-1])
+		})
 	}
 	if n := len(txn.StorageProofs); n > 0 {
 		add(func(x *types.Transaction) { x.StorageProofs = append(x.StorageProofs, x.StorageProofs[n-1]) })
